@@ -374,6 +374,18 @@ fn serializable_inputs(ctx: &mut Ctx, rng: &mut Rng) {
     one(ctx, &b, &(), "unit", &labels);
     one(ctx, &b, &5i128, "i128", &labels);
     one(ctx, &b, &Value::Int(1).to_string(), "string", &labels);
+    // references and wrappers of serializable inputs, maps with a key called facts / digit keys (reval::Value itself is not Serialize)
+    one(ctx, &b, &&&facts, "reference-to-reference", &labels);
+    one(ctx, &b, &Box::new(facts.clone()), "boxed-struct", &labels);
+    one(ctx, &b, &std::borrow::Cow::Borrowed("text"), "cow-str", &labels);
+    {
+        let mut fm: BTreeMap<String, BTreeMap<String, i32>> = BTreeMap::new();
+        fm.insert("facts".to_string(), [("x".to_string(), 1)].into_iter().collect());
+        fm.insert("a".to_string(), [("x".to_string(), 9)].into_iter().collect());
+        one(ctx, &b, &fm, "map-with-a-key-called-facts", &labels);
+        let digits: BTreeMap<String, i32> = [("0".to_string(), 1), ("1".to_string(), 2), ("10".to_string(), 3), ("a".to_string(), 4)].into_iter().collect();
+        one(ctx, &b, &digits, "map-with-integer-like-keys", &labels);
+    }
     one(ctx, &b, &FailSer, "failing-serialize", &labels);
     one(ctx, &b, &HoldsFail { a: 1, inner: FailSer }, "struct-holding-failing-serialize", &labels);
     one(ctx, &b, &vec![Some(FailSer)], "vec-holding-failing-serialize", &labels);
